@@ -110,4 +110,325 @@ theorem jw_ladder (L i : ℕ) (hi : i < L) (create : Bool) : encLadder .jw L i c
   · exact key 3 (s1a .jw L i) rfl (fun k => ⟨jw_s1a_zf L i k hi k.isLt, jw_s1a_xf L i k hi k.isLt⟩) (by simpa using half_X_add_iY)
   · exact key 1 (s1c .jw L i) rfl (fun k => ⟨jw_s1c_zf L i k hi k.isLt, jw_s1c_xf L i k hi k.isLt⟩) (by simpa using half_X_sub_iY)
 
+/-! ### Majorana strings: squares and anticommutation -/
+
+/-- `s₁` without its phase: the second Majorana string of site `i` -/
+def tS (enc : Enc) (L i : ℕ) : PS := { s1c enc L i with q := 0 }
+
+theorem tS_hasLen (enc : Enc) (L i : ℕ) (hi : i < L) : (tS enc L i).HasLen L := s1c_hasLen enc L i hi
+
+theorem s1c_mat (enc : Enc) (L i : ℕ) : (s1c enc L i).mat L = (-I) • (tS enc L i).mat L := by
+  simp [PS.mat, tS, s1c, PS.zf, PS.xf]
+theorem s1a_mat (enc : Enc) (L i : ℕ) : (s1a enc L i).mat L = I • (tS enc L i).mat L := by
+  simp [PS.mat, tS, s1c, s1a, PS.zf, PS.xf, pow_succ]
+
+theorem encLadder_create (enc : Enc) (L i : ℕ) :
+    encLadder enc L i true = (1 / 2 : ℂ) • ((s0 enc L i).mat L - I • (tS enc L i).mat L) := by
+  simp only [encLadder, ladderPair, if_true, s1c_mat]; module
+theorem encLadder_annihil (enc : Enc) (L i : ℕ) :
+    encLadder enc L i false = (1 / 2 : ℂ) • ((s0 enc L i).mat L + I • (tS enc L i).mat L) := by
+  simp only [encLadder, ladderPair, Bool.false_eq_true, if_false, s1a_mat]
+
+theorem mat_sq_of_q0 (n : ℕ) (P : PS) (h : P.q = 0) : P.mat n * P.mat n = 1 := by
+  simp only [PS.mat, h, Fin.val_zero, pow_zero, one_smul, tens_mul, letter_mul_self, tens_one]
+
+theorem commutesWith_iff (P R : PS) : P.commutesWith R = true ↔ (dot P.x R.z + dot P.z R.x) % 2 = 0 := by
+  simp only [PS.commutesWith, evalTerms, mulEnv, QibGen.Pauli.commTerms, List.map_cons, List.map_nil,
+    List.sum_cons, List.sum_nil, beq_iff_eq]
+  omega
+
+/-- strings for which the code's `commutes_with` test is odd anticommute as matrices -/
+theorem anticomm_of_odd (n : ℕ) (P R : PS) (hP : P.HasLen n) (hR : R.HasLen n)
+    (h : (dot P.x R.z + dot P.z R.x) % 2 = 1) : P.mat n * R.mat n = -(R.mat n * P.mat n) := by
+  rw [← mat_mul n P R hP hR, ← mat_mul n R P hR hP, mat_eq_smul_body, mat_eq_smul_body,
+    body_mul_comm n P R hP hR, ← neg_smul]
+  congr 1
+  have hq : (P.mul R).q.val % 4 = ((R.mul P).q.val + 2) % 4 := by
+    simp only [PS.mul, qOfInt, evalTerms, mulEnv, QibGen.Pauli.mulPhaseTerms, List.map_cons, List.map_nil,
+      List.sum_cons, List.sum_nil]
+    rw [zipWith_xor_comm R.z P.z, zipWith_xor_comm R.x P.x, dot_comm R.x P.z]
+    omega
+  rw [negI_pow_congr hq, pow_add]
+  simp [pow_succ]
+
+theorem toNat_decide (p : Prop) [Decidable p] : (decide p).toNat = if p then 1 else 0 := by
+  by_cases h : p <;> simp [h]
+
+/-- number of sites where both indicator functions are true -/
+def cnt (L : ℕ) (p q : ℕ → Bool) : ℕ := ∑ k : Fin L, (p k && q k).toNat
+
+theorem cnt_comm (L : ℕ) (p q : ℕ → Bool) : cnt L p q = cnt L q p := by
+  simp only [cnt, Bool.and_comm]
+
+theorem cnt_point (L m : ℕ) (p : ℕ → Bool) : cnt L p (fun k => decide (k = m)) = if m < L then (p m).toNat else 0 := by
+  unfold cnt
+  split
+  · rename_i h
+    rw [Finset.sum_eq_single (⟨m, h⟩ : Fin L)]
+    · simp
+    · intro b _ hb
+      have : ¬ b.val = m := fun e => hb (Fin.ext e)
+      simp [this]
+    · intro hn; exact absurd (Finset.mem_univ _) hn
+  · rename_i h
+    apply Finset.sum_eq_zero
+    intro k _
+    have : ¬ k.val = m := by have := k.isLt; omega
+    simp [this]
+
+theorem cnt_pred (L j : ℕ) (p : ℕ → Bool) :
+    cnt L p (fun k => decide (k + 1 = j)) = if 0 < j ∧ j ≤ L then (p (j - 1)).toNat else 0 := by
+  rcases Nat.eq_zero_or_pos j with h | h
+  · subst h; simp [cnt]
+  · have : (fun k => decide (k + 1 = j)) = (fun k => decide (k = j - 1)) := by
+      funext k; congr 1; apply propext; omega
+    rw [this, cnt_point]
+    have e : (j - 1 < L) = (0 < j ∧ j ≤ L) := by apply propext; omega
+    simp only [e]
+
+theorem dot_cnt (L : ℕ) (a b : List Bool) (ha : a.length = L) (hb : b.length = L) (p q : ℕ → Bool)
+    (hp : ∀ k, k < L → a.getD k false = p k) (hq : ∀ k, k < L → b.getD k false = q k) : dot a b = cnt L p q := by
+  rw [dot_eq_sum L a b ha hb, cnt]
+  exact Finset.sum_congr rfl (fun k _ => by rw [hp k k.isLt, hq k k.isLt])
+
+/-- the indicator functions of the check vectors -/
+def xI : Enc → ℕ → ℕ → Bool
+  | .jw, i, k => decide (k = i)
+  | .parity, i, k => decide (i ≤ k)
+def zaI : Enc → ℕ → ℕ → Bool
+  | .jw, i, k => decide (i < k)
+  | .parity, i, k => decide (k + 1 = i)
+def zbI : Enc → ℕ → ℕ → Bool
+  | .jw, i, k => decide (i ≤ k)
+  | .parity, i, k => decide (k = i)
+
+theorem s0_zf_eq (enc : Enc) (L i k : ℕ) (hi : i < L) (hk : k < L) : (s0 enc L i).z.getD k false = zaI enc i k := by
+  cases enc
+  · exact jw_s0_zf L i k hi hk
+  · exact par_s0_zf L i k hi hk
+theorem s0_xf_eq (enc : Enc) (L i k : ℕ) (hi : i < L) (hk : k < L) : (s0 enc L i).x.getD k false = xI enc i k := by
+  cases enc
+  · exact jw_s0_xf L i k hi hk
+  · exact par_s0_xf L i k hi hk
+theorem tS_zf_eq (enc : Enc) (L i k : ℕ) (hi : i < L) (hk : k < L) : (tS enc L i).z.getD k false = zbI enc i k := by
+  cases enc
+  · exact jw_s1c_zf L i k hi hk
+  · exact par_s1c_zf L i k hi hk
+theorem tS_xf_eq (enc : Enc) (L i k : ℕ) (hi : i < L) (hk : k < L) : (tS enc L i).x.getD k false = xI enc i k := by
+  cases enc
+  · exact jw_s1c_xf L i k hi hk
+  · exact par_s1c_xf L i k hi hk
+
+theorem cnt_x_za (enc : Enc) (L i j : ℕ) (hi : i < L) (hj : j < L) :
+    cnt L (xI enc i) (zaI enc j) = match enc with | .jw => (decide (j < i)).toNat | .parity => (decide (i < j)).toNat := by
+  cases enc
+  · show cnt L (fun k => decide (k = i)) (fun k => decide (j < k)) = _
+    rw [cnt_comm, cnt_point, if_pos hi]
+  · show cnt L (fun k => decide (i ≤ k)) (fun k => decide (k + 1 = j)) = _
+    rw [cnt_pred]
+    by_cases h : 0 < j
+    · rw [if_pos ⟨h, by omega⟩]; congr 2; apply propext; omega
+    · rw [if_neg (by omega)]; simp only [toNat_decide]; rw [if_neg (by omega)]
+
+theorem cnt_x_zb (enc : Enc) (L i j : ℕ) (hi : i < L) (hj : j < L) :
+    cnt L (xI enc i) (zbI enc j) = match enc with | .jw => (decide (j ≤ i)).toNat | .parity => (decide (i ≤ j)).toNat := by
+  cases enc
+  · show cnt L (fun k => decide (k = i)) (fun k => decide (j ≤ k)) = _
+    rw [cnt_comm, cnt_point, if_pos hi]
+  · show cnt L (fun k => decide (i ≤ k)) (fun k => decide (k = j)) = _
+    rw [cnt_point, if_pos hj]
+
+/-- `S_i S_j = - S_j S_i` for `i ≠ j` -/
+theorem S_anti (enc : Enc) (L i j : ℕ) (hi : i < L) (hj : j < L) (hij : i ≠ j) :
+    (s0 enc L i).mat L * (s0 enc L j).mat L = -((s0 enc L j).mat L * (s0 enc L i).mat L) := by
+  apply anticomm_of_odd L _ _ (s0_hasLen enc L i hi) (s0_hasLen enc L j hj)
+  rw [dot_cnt L _ _ (s0_hasLen enc L i hi).2 (s0_hasLen enc L j hj).1 _ _ (fun k hk => s0_xf_eq enc L i k hi hk)
+      (fun k hk => s0_zf_eq enc L j k hj hk),
+    dot_cnt L _ _ (s0_hasLen enc L i hi).1 (s0_hasLen enc L j hj).2 _ _ (fun k hk => s0_zf_eq enc L i k hi hk)
+      (fun k hk => s0_xf_eq enc L j k hj hk),
+    cnt_comm L (zaI enc i), cnt_x_za enc L i j hi hj, cnt_x_za enc L j i hj hi]
+  cases enc <;> simp only [toNat_decide] <;> split_ifs <;> omega
+
+/-- `T_i T_j = - T_j T_i` for `i ≠ j` -/
+theorem T_anti (enc : Enc) (L i j : ℕ) (hi : i < L) (hj : j < L) (hij : i ≠ j) :
+    (tS enc L i).mat L * (tS enc L j).mat L = -((tS enc L j).mat L * (tS enc L i).mat L) := by
+  apply anticomm_of_odd L _ _ (tS_hasLen enc L i hi) (tS_hasLen enc L j hj)
+  rw [dot_cnt L _ _ (tS_hasLen enc L i hi).2 (tS_hasLen enc L j hj).1 _ _ (fun k hk => tS_xf_eq enc L i k hi hk)
+      (fun k hk => tS_zf_eq enc L j k hj hk),
+    dot_cnt L _ _ (tS_hasLen enc L i hi).1 (tS_hasLen enc L j hj).2 _ _ (fun k hk => tS_zf_eq enc L i k hi hk)
+      (fun k hk => tS_xf_eq enc L j k hj hk),
+    cnt_comm L (zbI enc i), cnt_x_zb enc L i j hi hj, cnt_x_zb enc L j i hj hi]
+  cases enc <;> simp only [toNat_decide] <;> split_ifs <;> omega
+
+/-- `S_i T_j = - T_j S_i` for all `i`, `j` -/
+theorem ST_anti (enc : Enc) (L i j : ℕ) (hi : i < L) (hj : j < L) :
+    (s0 enc L i).mat L * (tS enc L j).mat L = -((tS enc L j).mat L * (s0 enc L i).mat L) := by
+  apply anticomm_of_odd L _ _ (s0_hasLen enc L i hi) (tS_hasLen enc L j hj)
+  rw [dot_cnt L _ _ (s0_hasLen enc L i hi).2 (tS_hasLen enc L j hj).1 _ _ (fun k hk => s0_xf_eq enc L i k hi hk)
+      (fun k hk => tS_zf_eq enc L j k hj hk),
+    dot_cnt L _ _ (s0_hasLen enc L i hi).1 (tS_hasLen enc L j hj).2 _ _ (fun k hk => s0_zf_eq enc L i k hi hk)
+      (fun k hk => tS_xf_eq enc L j k hj hk),
+    cnt_comm L (zaI enc i), cnt_x_zb enc L i j hi hj, cnt_x_za enc L j i hj hi]
+  cases enc <;> simp only [toNat_decide] <;> split_ifs <;> omega
+
+theorem S_sq (enc : Enc) (L i : ℕ) : (s0 enc L i).mat L * (s0 enc L i).mat L = 1 := mat_sq_of_q0 L _ rfl
+theorem T_sq (enc : Enc) (L i : ℕ) : (tS enc L i).mat L * (tS enc L i).mat L = 1 := mat_sq_of_q0 L _ rfl
+
+/-! ### canonical anticommutation relations from the Majorana relations -/
+
+section car
+variable {n : Type} [Fintype n] [DecidableEq n]
+local notation "Mat" => Matrix n n ℂ
+
+theorem anticomm_expand (a b : ℂ) (Si Ti Sj Tj : Mat) :
+    ((1 / 2 : ℂ) • (Si + a • Ti)) * ((1 / 2 : ℂ) • (Sj + b • Tj)) + ((1 / 2 : ℂ) • (Sj + b • Tj)) * ((1 / 2 : ℂ) • (Si + a • Ti)) =
+      (1 / 4 : ℂ) • ((Si * Sj + Sj * Si) + (a * b) • (Ti * Tj + Tj * Ti) + b • (Si * Tj + Tj * Si) + a • (Ti * Sj + Sj * Ti)) := by
+  simp only [Matrix.smul_mul, Matrix.mul_smul, mul_add, add_mul, smul_add, smul_smul]
+  module
+
+end car
+
+/-- all anticommutators of the `2L` Majorana strings -/
+theorem majorana_rel (enc : Enc) (L i j : ℕ) (hi : i < L) (hj : j < L) :
+    let S := fun k => (s0 enc L k).mat L
+    let T := fun k => (tS enc L k).mat L
+    S i * S j + S j * S i = (if i = j then (2 : ℂ) else 0) • (1 : Matrix (Fin L → Bool) (Fin L → Bool) ℂ) ∧
+    T i * T j + T j * T i = (if i = j then (2 : ℂ) else 0) • (1 : Matrix (Fin L → Bool) (Fin L → Bool) ℂ) ∧
+    S i * T j + T j * S i = 0 ∧ T i * S j + S j * T i = 0 := by
+  intro S T
+  refine ⟨?_, ?_, ?_, ?_⟩
+  · by_cases h : i = j
+    · subst h; simp only [S, S_sq, if_true]; module
+    · simp only [S, if_neg h, zero_smul]; rw [S_anti enc L i j hi hj h]; simp
+  · by_cases h : i = j
+    · subst h; simp only [T, T_sq, if_true]; module
+    · simp only [T, if_neg h, zero_smul]; rw [T_anti enc L i j hi hj h]; simp
+  · simp only [S, T]; rw [ST_anti enc L i j hi hj]; simp
+  · simp only [S, T]; rw [ST_anti enc L j i hj hi]; simp
+
+/-- the encoded ladder operators of either encoder satisfy the canonical anticommutation relations -/
+theorem encLadder_car (enc : Enc) (L i j : ℕ) (hi : i < L) (hj : j < L) :
+    (encLadder enc L i false * encLadder enc L j true + encLadder enc L j true * encLadder enc L i false =
+        if i = j then 1 else 0) ∧
+    encLadder enc L i false * encLadder enc L j false + encLadder enc L j false * encLadder enc L i false = 0 ∧
+    encLadder enc L i true * encLadder enc L j true + encLadder enc L j true * encLadder enc L i true = 0 := by
+  obtain ⟨hSS, hTT, hST, hTS⟩ := majorana_rel enc L i j hi hj
+  simp only at hSS hTT hST hTS
+  have hc : ∀ k, encLadder enc L k true = (1 / 2 : ℂ) • ((s0 enc L k).mat L + (-I) • (tS enc L k).mat L) := by
+    intro k; rw [encLadder_create]; congr 1; rw [neg_smul, sub_eq_add_neg]
+  refine ⟨?_, ?_, ?_⟩
+  · rw [encLadder_annihil, hc, anticomm_expand, hSS, hTT, hST, hTS]
+    by_cases h : i = j
+    · simp only [h, if_true, smul_zero, add_zero, smul_smul, ← add_smul]
+      have : (1 / 4 : ℂ) * (2 + I * -I * 2) = 1 := by rw [mul_neg, I_mul_I]; norm_num
+      rw [this, one_smul]
+    · simp [h]
+  · rw [encLadder_annihil, encLadder_annihil, anticomm_expand, hSS, hTT, hST, hTS]
+    by_cases h : i = j
+    · simp only [h, if_true, smul_zero, add_zero, smul_smul, ← add_smul]
+      have : (1 / 4 : ℂ) * (2 + I * I * 2) = 0 := by rw [I_mul_I]; norm_num
+      rw [this, zero_smul]
+    · simp [h]
+  · rw [hc, hc, anticomm_expand, hSS, hTT, hST, hTS]
+    by_cases h : i = j
+    · simp only [h, if_true, smul_zero, add_zero, smul_smul, ← add_smul]
+      have : (1 / 4 : ℂ) * (2 + -I * -I * 2) = 0 := by rw [neg_mul_neg, I_mul_I]; norm_num
+      rw [this, zero_smul]
+    · simp [h]
+
+/-! ### the vacuum is annihilated -/
+
+theorem S_mat_tens (enc : Enc) (L i : ℕ) (hi : i < L) :
+    (s0 enc L i).mat L = tens (fun k : Fin L => letter (zaI enc i k) (xI enc i k)) := by
+  have : (s0 enc L i).q.val = 0 := rfl
+  simp only [PS.mat, this, pow_zero, one_smul]
+  congr 1; funext k
+  rw [PS.zf, PS.xf, s0_zf_eq enc L i k hi k.isLt, s0_xf_eq enc L i k hi k.isLt]
+
+theorem T_mat_tens (enc : Enc) (L i : ℕ) (hi : i < L) :
+    (tS enc L i).mat L = tens (fun k : Fin L => letter (zbI enc i k) (xI enc i k)) := by
+  have : (tS enc L i).q.val = 0 := rfl
+  simp only [PS.mat, this, pow_zero, one_smul]
+  congr 1; funext k
+  rw [PS.zf, PS.xf, tS_zf_eq enc L i k hi k.isLt, tS_xf_eq enc L i k hi k.isLt]
+
+/-- the encoded annihilation operators of either encoder annihilate `|0…0⟩` (column of the all-false index) -/
+theorem encLadder_vacuum (enc : Enc) (L i : ℕ) (hi : i < L) (r : Fin L → Bool) :
+    encLadder enc L i false r (fun _ => false) = 0 := by
+  rw [encLadder_annihil, S_mat_tens enc L i hi, T_mat_tens enc L i hi]
+  simp only [Matrix.smul_apply, Matrix.add_apply, smul_eq_mul]
+  have h := tens_lincomb_entry (⟨i, hi⟩ : Fin L) (fun k : Fin L => letter (zaI enc i k) (xI enc i k))
+    (fun k : Fin L => letter (zbI enc i k) (xI enc i k)) 1 I r (fun _ => false) (by
+      intro k hk
+      have hk' : k.val ≠ i := fun e => hk (Fin.ext e)
+      cases enc
+      · simp only [zaI, zbI, xI]
+        have e : decide (i ≤ k.val) = decide (i < k.val) := by congr 1; apply propext; omega
+        rw [e]
+      · simp only [zaI, zbI, xI, hk', decide_false]
+        by_cases h1 : k.val + 1 = i
+        · have : ¬ i ≤ k.val := by omega
+          simp only [h1, this, decide_true, decide_false]
+          cases r k <;> simp [letter, zx]
+        · simp [h1])
+  rw [one_mul] at h
+  rw [h]
+  have hz : (1 : ℂ) * letter (zaI enc i i) (xI enc i i) (r ⟨i, hi⟩) false + I * letter (zbI enc i i) (xI enc i i) (r ⟨i, hi⟩) false = 0 := by
+    cases enc <;> simp only [zaI, zbI, xI] <;> cases r ⟨i, hi⟩ <;> simp [letter, zx]
+  simp only [hz, zero_mul, mul_zero]
+
+/-! ### number operators -/
+
+/-- the `Z` string of the encoded occupation number: `Z_i` (Jordan-Wigner), `Z_{i-1} Z_i` with `Z_{-1} := 1` (parity) -/
+def numZ (enc : Enc) (L i : ℕ) : Matrix (Fin L → Bool) (Fin L → Bool) ℂ :=
+  tens (fun k : Fin L => match enc with
+    | .jw => if k.val = i then pauliZ else 1
+    | .parity => if k.val + 1 = i ∨ k.val = i then pauliZ else 1)
+
+theorem letter_XY : letter false true * letter true true = I • pauliZ := by
+  ext r c; cases r <;> cases c <;> simp [letter, zx, pauliZ, Matrix.mul_apply]
+
+theorem S_mul_T (enc : Enc) (L i : ℕ) (hi : i < L) :
+    (s0 enc L i).mat L * (tS enc L i).mat L = I • numZ enc L i := by
+  rw [S_mat_tens enc L i hi, T_mat_tens enc L i hi, tens_mul]
+  have hs : ∀ k : Fin L, letter (zaI enc i k) (xI enc i k) * letter (zbI enc i k) (xI enc i k) =
+      (if k = (⟨i, hi⟩ : Fin L) then I else 1) • (match enc with
+        | .jw => if k.val = i then pauliZ else 1
+        | .parity => if k.val + 1 = i ∨ k.val = i then pauliZ else 1) := by
+    intro k
+    by_cases hk : k.val = i
+    · have hk2 : k = (⟨i, hi⟩ : Fin L) := Fin.ext hk
+      cases enc <;> simp [zaI, zbI, xI, hk2, letter_XY]
+    · have hk2 : ¬ k = (⟨i, hi⟩ : Fin L) := fun e => hk (congrArg Fin.val e)
+      cases enc
+      · simp only [zaI, zbI, xI, hk, hk2, decide_false, if_false, one_smul]
+        have e : decide (i ≤ k.val) = decide (i < k.val) := by congr 1; apply propext; omega
+        rw [e, letter_mul_self]
+      · simp only [zaI, zbI, xI, hk, hk2, decide_false, if_false, one_smul, or_false]
+        by_cases h1 : k.val + 1 = i
+        · have : ¬ i ≤ k.val := by omega
+          simp [h1, this, letter_I, letter_Z]
+        · simp only [h1, decide_false, if_false]
+          by_cases h2 : i ≤ k.val
+          · simp only [h2, decide_true]; exact letter_mul_self false true
+          · simp only [h2, decide_false]; exact letter_mul_self false false
+  simp only [hs]
+  rw [tens_smul, Finset.prod_ite_eq' Finset.univ (⟨i, hi⟩ : Fin L) (fun _ => I)]
+  simp [numZ]
+
+/-- encoded `a†_i a_i = ½ (1 - Z…)` -/
+theorem encLadder_number (enc : Enc) (L i : ℕ) (hi : i < L) :
+    encLadder enc L i true * encLadder enc L i false = (1 / 2 : ℂ) • (1 - numZ enc L i) := by
+  have hTS : (tS enc L i).mat L * (s0 enc L i).mat L = -((s0 enc L i).mat L * (tS enc L i).mat L) := by
+    rw [ST_anti enc L i i hi hi, neg_neg]
+  have key : ∀ (a : ℂ) (S T : Matrix (Fin L → Bool) (Fin L → Bool) ℂ),
+      ((1 / 2 : ℂ) • (S - a • T)) * ((1 / 2 : ℂ) • (S + a • T)) =
+        (1 / 4 : ℂ) • (S * S - (a * a) • (T * T) + a • (S * T) - a • (T * S)) := by
+    intro a S T
+    simp only [Matrix.smul_mul, Matrix.mul_smul, mul_add, sub_mul, smul_add, smul_sub, smul_smul]
+    module
+  rw [encLadder_create, encLadder_annihil, key, S_sq, T_sq, hTS, S_mul_T enc L i hi, I_mul_I]
+  simp only [smul_neg, smul_smul, I_mul_I]
+  module
+
 end Qib.Encode
